@@ -115,7 +115,7 @@ ReplayInit ==
        /\ desc = [cls |-> Cls[c], b |-> RBatches[bi], chunk |-> ch, n |-> 4,
                   dt |-> IF Cls[c] \in {"Perm", "TransPerm"} \/ (c + ch) % 2 = 1 THEN "f32" ELSE "f64",
                   debug |-> (c + bi + ch) % 2, id |-> (c * 8 + bi) * 64 + ch,
-                  seed |-> Seed * 1000 + c * 13 + bi * 5 + ch]
+                  seed |-> c * 13 + bi * 5 + ch]
   /\ term = <<>> /\ dense = <<>> /\ pc = 0 /\ hist = <<>>
 
 \* index tuples are numbered 0 .. NK^r - 1 (digits = item kinds); negative codes -1 .. -9 are the ellipsis forms
